@@ -98,39 +98,61 @@ def in_domain(tl):
         return False
 
 
-def reuse_clause(tl, tags, rank):
+def edit_in_place(tl, td, mode):
+    """edit the public lists of a TimingData object in place; returns the timeline the object now describes.
+    mode "replace": equal-length replacements only (lengths and offset unchanged) ; mode "append": a stop is appended."""
     import copy
 
-    from simfile.ssc import SSCSimfile
-    from simfile.timing import Beat, BeatValue, TimingData
-    from simfile.timing.engine import TimingEngine
+    from simfile.timing import Beat, BeatValue
 
-    td = TimingData(SSCSimfile(string=simfile_text(tl)))
-    first = TimingEngine(td)
-    first.time_at(Beat(1))
     tl_b = copy.deepcopy(tl)
     b0 = D(tl["bpms"][0][1])
     nb = b0 + 17 if b0 + 17 <= 2000 else b0 - 17
     tl_b["bpms"][0][1] = str(nb)
     td.bpms[0] = BeatValue(td.bpms[0].beat, nb)
-    last = max([k for n in ("bpms", "stops", "delays") for k, _ in tl[n]] + [k + l for k, l in tl["warps"]])
-    tl_b["stops"] = list(tl_b["stops"]) + [[last + 24, "0.5"]]
-    td.stops.append(BeatValue(Beat(last + 24, 48), D("0.5")))
-    second = TimingEngine(td)
-    mb = Model(tl_b)
+    if mode == "replace":
+        for name in ("stops", "delays"):
+            if tl[name]:
+                nv = D(tl[name][0][1]) + D("0.25")
+                tl_b[name][0][1] = str(nv)
+                lst = getattr(td, name)
+                lst[0] = BeatValue(lst[0].beat, nv)
+        if tl["warps"]:
+            k, l = tl["warps"][0]
+            tl_b["warps"][0] = [k, l + 24]
+            td.warps[0] = BeatValue(td.warps[0].beat, D(l + 24) / D(48))
+    else:
+        last = max([k for n in ("bpms", "stops", "delays") for k, _ in tl[n]] + [k + l for k, l in tl["warps"]])
+        tl_b["stops"] = list(tl_b["stops"]) + [[last + 24, "0.5"]]
+        td.stops.append(BeatValue(Beat(last + 24, 48), D("0.5")))
+    return tl_b
+
+
+def reuse_clause(tl, tags, rank):
+    from simfile.ssc import SSCSimfile
+    from simfile.timing import Beat, TimingData
+    from simfile.timing.engine import TimingEngine
+
     n = 0
-    for b in mb.probe_beats():
-        B = frac_beat(b)
-        for tag in (tags[0], tags[5], tags[6]):
-            n += 1
-            got = float(second.time_at(B, tag))
-            exp = float(mb.time(b, rank[tag]))
-            need(
-                abs(got - exp) <= TOL,
-                f"an engine built from a TimingData object edited in place (first BPM -> {nb}, stop appended at tick {last + 24}) after an "
-                f"earlier engine had been built from it reports time_at({b}, {tag.name}) = {got!r}, exact {exp!r}; original timeline {tl}",
-            )
-        need(second.bpm_at(B) == mb.bpm_decimal(b), f"engine built from the edited TimingData object: bpm_at({b}) = {second.bpm_at(B)!r}; original timeline {tl}")
+    for mode in ("replace", "append"):
+        td = TimingData(SSCSimfile(string=simfile_text(tl)))
+        first = TimingEngine(td)
+        first.time_at(Beat(1))
+        tl_b = edit_in_place(tl, td, mode)
+        second = TimingEngine(td)
+        mb = Model(tl_b)
+        for b in mb.probe_beats():
+            B = frac_beat(b)
+            for tag in (tags[0], tags[5], tags[6]):
+                n += 1
+                got = float(second.time_at(B, tag))
+                exp = float(mb.time(b, rank[tag]))
+                need(
+                    abs(got - exp) <= TOL,
+                    f"an engine built from a TimingData object after the object was edited in place ({mode}: now {tl_b}) and after an earlier "
+                    f"engine had been built from it reports time_at({b}, {tag.name}) = {got!r}, exact {exp!r}; original timeline {tl}",
+                )
+            need(second.bpm_at(B) == mb.bpm_decimal(b), f"engine built from the edited TimingData object ({mode}): bpm_at({b}) = {second.bpm_at(B)!r}; original timeline {tl}")
     return n
 
 
